@@ -64,7 +64,7 @@ Print Assumptions C13_notify_own_fseid.
 
 (* report construction: session known, the first core PDR (pid, fid) has pid <> 0, and every FAR with
    id fid carries NOTIFY -> exactly one Session Report Request: header SEID = remote SEID, sequence =
-   counter + 1 (uint32 counter, 24 bits on the wire), Report Type DLDR, one PDR ID (16 bits) *)
+   counter + 1 modulo 2^24 (the counter is kept within the 24 bits of the wire field), Report Type DLDR, one PDR ID (16 bits) *)
 Theorem C13_report_shape : forall st seq fseid s pid fid,
   get_session fseid st = Some s -> first_core (s_pdrs s) = (pid, fid) -> pid <> 0 ->
   all_notify fid (s_fars s) ->
@@ -183,7 +183,7 @@ Example C13_report_nonvacuous :
   handle_digest_report st 41 7 = (42, [Srr 900 42 1 [2]]) /\
   handle_digest_report st 42 8 = (43, []) /\
   handle_digest_report st 43 99 = (43, []) /\
-  handle_digest_report st 16777215 7 = (16777216, [Srr 900 0 1 [2]]).
+  handle_digest_report st 16777215 7 = (0, [Srr 900 0 1 [2]]).
 Proof. vm_compute. repeat split; reflexivity. Qed.
 
 (* event decoding *)
